@@ -155,7 +155,7 @@ def cossin(x):
     else:
         lin = x.lin
     if lin is None:
-        raise SymnpUnsupported(f"trig of a term without linear angle form: {x!r}")
+        lin = opaque_angle(x).lin
     C, S = z3.RealVal(1), z3.RealVal(0)
 
     def mul(C, S, ck, sk):
@@ -197,6 +197,25 @@ def cossin(x):
             C, S = (ck, sk) if first else mul(C, S, ck, sk)
             first = False
     return C, S
+
+
+def opaque_angle(x):
+    """an arbitrary symbolic term used as an angle (e.g. |w|*dt/2): it becomes an angle atom of its own, with no range
+    facts; the same term (as a rational function) always maps to the same atom"""
+    from . import algcert
+    ck = algcert.canon_key(z3.simplify(x.t))
+    key = ('opaque', ck if ck is not None else x.t.get_id())
+    hit = CTX.sqrt_cache.get(key)
+    if hit is not None:
+        x.lin = hit[0].lin
+        return hit[0]
+    CTX.angle_n += 1
+    name = f"opq_{CTX.angle_n}"
+    CTX.atoms[name] = dict(var=x.t, rng='free', unit='rad', lazy=None, linked=False)
+    x.lin = Lin({name: PiPoly({0: F(1)})}, PiPoly())
+    CTX.sqrt_cache[key] = (x, x.t)
+    CTX.events.append(('opaque-angle', str(x.t)[:60]))
+    return x
 
 
 def sym_cos(x):
